@@ -12,3 +12,5 @@ if [ -f "$SEED/demo.py" ]; then
   ( cd "$S/repo" && PYTHONPATH="$S/repo/src" /venv/bin/python "$SEED/demo.py" >/dev/null 2>&1 ); echo "demo on mutated copy: exit $?"
 fi
 cd /verif && TDVERIF_REPO="$S/repo" ./check "$PROP" "$@" 2>&1 | grep -E "VIOLATION|KNOWN-FINDING|-> |INFRA|Error" ; echo "check exit ${PIPESTATUS[0]}"
+# tables regenerated from the mutated copy must not stay in the tree
+git -C /verif checkout -- lean/TD/TD/Gen evidence 2>/dev/null
